@@ -3,6 +3,7 @@ package generator
 import (
 	"fmt"
 	"reflect"
+	"strconv"
 	"strings"
 	"unicode"
 	"unicode/utf8"
@@ -255,6 +256,16 @@ func (v *arrayValidator) desc() *validatorDesc {
 	}
 }
 
+// patternLiteral writes a pattern as a Go string literal: a raw string, unless the text has a backquote (which
+// would end the literal) or a carriage return (which Go drops from raw strings).
+func patternLiteral(pattern string) string {
+	if strings.ContainsAny(pattern, "`\r") {
+		return strconv.Quote(pattern)
+	}
+
+	return "`" + pattern + "`"
+}
+
 type stringValidator struct {
 	jsonName   string
 	fieldName  string
@@ -282,13 +293,13 @@ func (v *stringValidator) generate(out *codegen.Emitter, format string) {
 		}
 
 		out.Printlnf(
-			`if matched, _ := regexp.MatchString(`+"`%s`"+`, string(%s%s)); !matched {`,
-			v.pattern, pointerPrefix, value,
+			`if matched, _ := regexp.MatchString(%s, string(%s%s)); !matched {`,
+			patternLiteral(v.pattern), pointerPrefix, value,
 		)
 		out.Indent(1)
 		out.Printlnf(
-			`return fmt.Errorf("field %%s pattern match: must match %%s", "%s", `+"`%s`"+`)`,
-			v.fieldName, v.pattern,
+			`return fmt.Errorf("field %%s pattern match: must match %%s", "%s", %s)`,
+			v.fieldName, patternLiteral(v.pattern),
 		)
 		out.Indent(-1)
 		out.Printlnf("}")
